@@ -11,9 +11,9 @@ from vf.worker import R
 PROPERTY = "C12"
 LEVEL = "fault_enumeration"
 RULE = ("case = one execution of a corpus plan (traced: every yield logs the response or exception it receives) in which ONE "
-        "device operation - every (device, op in {set, trigger, read, stage, unstage, kickoff, complete, collect}, n-th "
+        "device operation - every (device, op in {set, trigger, read, stage, unstage, kickoff, complete, collect, locate (sync and coroutine, single and multi-device messages)}, n-th "
         "occurrence) of the uninterrupted run - is made to raise synchronously, to return a status that fails at once, or "
-        "one that fails later, crossed with a plan that ignores, handles (recovers and returns) or transforms the error; "
+        "one that fails later, crossed with a plan that ignores, handles (recovers and returns) or transforms the error; plus a plan whose set is waited for only after later checkpoints, with a pause+resume or a suspension landing at every loop coordinate before the status fails; "
         "oracle: synchronous failure -> thrown at the yield of the causing message, same object; failed status -> thrown "
         "at a yield between the causing message and the wait on its group, as FailedStatus with the device exception as "
         "__cause__; the call then ends as the plan's reaction dictates; distinct = (device op, failure mode, reaction, "
@@ -21,7 +21,7 @@ RULE = ("case = one execution of a corpus plan (traced: every yield logs the res
 ASSUMPTIONS = ["statuses nobody waits for that fail after the plan has moved on are not judged",
                "fail-later = the status fails 0.05 virtual s after its nominal completion time"]
 REQUIRED_COUNTERS = {"executions": 200, "sync_failures_judged": 100, "status_failures_judged": 80, "handled": 60,
-                     "transformed": 60, "ignored": 60}
+                     "transformed": 60, "ignored": 60, "interrupted_before_wait": 40}
 MANIFEST = {
     "technique": "exhaustive device-fault enumeration with a self-instrumented plan: delivery point, exception identity and "
                  "cause chain compared with the injected fault",
@@ -31,10 +31,10 @@ MANIFEST = {
     "note": "Corpus plans; one fault per execution.",
     "design_ref": "3 (C12)",
 }
-PLANS_Q = ["scan", "custom", "fly", "count", "nested"]
+PLANS_Q = ["scan", "custom", "fly", "count", "nested", "locate2"]
 PLANS_T = PLANS_Q + ["grid", "rel_scan", "list_scan", "neverclose", "two_runs", "mixed"]
 SHARD_TIMEOUT = {"quick": 900, "thorough": 3600}
-OPS = ("set", "trigger", "read", "stage", "unstage", "kickoff", "complete", "collect")
+OPS = ("set", "trigger", "read", "stage", "unstage", "kickoff", "complete", "collect", "locate")
 
 
 def worker_init(tier, seed):
@@ -46,6 +46,11 @@ def gen_cases(tier, seed):
     for p in (PLANS_Q if tier == "quick" else PLANS_T):
         for w in ("traced", "traced-handle", "traced-transform"):
             cases.append({"plan": p, "wrap_name": w, "seed": seed})
+    # a status that fails AFTER a pause+resume / suspension which landed between its message and the wait on its group
+    for kind in ("pause", "suspend"):
+        for w in ("traced", "traced-handle"):
+            for sl in range(3):
+                cases.append({"plan": "late_wait", "wrap_name": w, "seed": seed, "interrupt": kind, "slice": [sl, 3]})
     return cases
 
 
@@ -111,6 +116,8 @@ def judge(ex, case):
                 problems.append(("FailedStatus-not-chained-to-device-exception", f"__cause__={got[4].__cause__!r}"))
     # outcome by reaction
     r = dict(ex.calls).get("RE")
+    if case.get("interrupt") and ex.calls:
+        r = ex.calls[-1][1]      # the call that ended the run (RE(...) itself, or the resume() after a pause)
     if got is not None and r is not None:
         if spec["wrap_name"] == "traced":
             if r[0] != "exc" or r[1] is not got[4]:
@@ -144,6 +151,20 @@ def judge(ex, case):
 def run_case(case):
     if "replay_spec" in case:
         return judge(execute(case["replay_spec"]), case)
+    if case.get("interrupt"):
+        base = {"plan": case["plan"], "wrap_name": case["wrap_name"], "dev_kwargs": {"motor_delay": 0.3}}
+        ref, coords = reference_coords(base)
+        out = []
+        a, n = case["slice"]
+        for c in coords[a::n]:
+            ex = execute(dict(base, faults=[[["m1", "set", 1], "fail-later"]], inj=[[c[0], c[1], case["interrupt"], {}]],
+                              decisions=["resume", "resume"]))
+            rs = judge(ex, case)
+            for r in rs:
+                if r.get("counters"):
+                    r["counters"]["interrupted_before_wait"] = int(any(e[0] == "inject" for e in ex.log))
+            out += rs
+        return out
     ref, _ = reference_coords({"plan": case["plan"]})
     ops, counts = [], {}
     for e in ref.log:
